@@ -354,6 +354,49 @@ pub fn div_i_trunc_small(sa: Sign, sb: Sign, bits: u32) {
     assert!(x.is_multiple_of(&y) == (r == 0));
 }
 
+/// ConstDivisor with a literal divisor d on dividends CONSTRUCTED as a = q*d + r (q, r symbolic small,
+/// r < 2^rbits <= d): the real operators must return exactly (q, r). Few free bits, every length class.
+pub fn const_div_constructed<const ND: usize, const LA: usize, const P: usize>(d: [Word; ND], which: u8, qbits: u32, rbits: u32) {
+    let q: Word = nd::any();
+    let r: Word = nd::any();
+    nd::assume(q < (1 << qbits) && r < (1 << rbits));
+    let mut a = [0 as Word; P]; // P = ND + 1
+    oracle::mul(&d, &[q], &mut a);
+    let mut a2 = [0 as Word; P];
+    let carry = oracle::add(&a, &[r], &mut a2);
+    nd::assume(!carry);
+    // the dividend has exactly LA words (LA is a constant of the harness: the shape stays concrete)
+    nd::assume(sig_len(&a2) == LA);
+    let mut aw = [0 as Word; LA];
+    let mut i = 0;
+    while i < LA {
+        aw[i] = a2[i];
+        i += 1;
+    }
+    let cd = ConstDivisor::new(ubig(&d));
+    let qa = [q];
+    let ra = [r];
+    match which {
+        0 => {
+            let got = ubig(&aw) / &cd;
+            assert!(canonical_u(&got) && words_eq(got.as_words(), &qa), "wrong quotient through ConstDivisor");
+        }
+        1 => {
+            let got = ubig(&aw) % &cd;
+            assert!(canonical_u(&got) && words_eq(got.as_words(), &ra), "wrong remainder through ConstDivisor");
+        }
+        2 => {
+            let (gq, gr) = ubig(&aw).div_rem(&cd);
+            assert!(words_eq(gq.as_words(), &qa) && words_eq(gr.as_words(), &ra));
+        }
+        _ => {
+            let (gq, gr) = ubig(&aw).div_rem(ubig(&d));
+            assert!(words_eq(gq.as_words(), &qa) && words_eq(gr.as_words(), &ra), "plain div_rem wrong");
+        }
+    }
+    core::mem::forget(cd);
+}
+
 // ------------------------------------------------------------------ ConstDivisor agrees with plain division
 
 /// divisor concrete (words given), dividend structured: `/ % div_rem` through ConstDivisor == plain operators
